@@ -230,7 +230,10 @@ impl Builder {
                 let t = self.term(&g[1]);
                 let names = self.names.clone();
                 FnGoal::new::<K>(Box::new(move |_solver, mut state| {
-                    let s = crate::project::term_json(&t, &names).to_string();
+                    let mut s = crate::project::term_json(&t, &names).to_string();
+                    if s.contains("var") || s.contains("any") || s.contains("proj") {
+                        s = "<nonground>".to_string();
+                    }
                     state.user_state.trail.push(s);
                     Stream::unit(Box::new(state))
                 }))
